@@ -1,9 +1,11 @@
 """C06 (handshake, PeerCrypto level; node level in the node suite)."""
 from ..core import Script
 from .. import initgen
+from .. import nodegen
+from . import _nodecommon
 
 ID = "C06"
-SUITES = ["init"]
+SUITES = ["init", "node"]
 LEAN_MODULES = ["VpnCloud.Proofs.C06"]
 THEOREMS = ["VpnCloud.Proofs.C06." + n for n in ("select_spec", "selectRef_symm", "select_symm", "selectRef_perm", "plain_iff_both", "fail_iff_none_common", "selected_is_best", "selected_tiebreak")]
 BATCH = 20
@@ -51,4 +53,11 @@ DESIGN_REF = "DESIGN.md section 5, C06"
 
 
 def gen(tier, rng):
-    return initgen.c06_scripts(rng, tier == "thorough")
+    for x in initgen.c06_scripts(rng, tier == "thorough"):
+        yield x
+    # node level: unencrypted sessions only where both ends enabled 'plain'; no common cipher => no connection
+    r = rng.fork("node")
+    yield nodegen.plain_script(r, "node-plain-mixed", [True, False, "only"])
+    yield nodegen.plain_script(r, "node-plain-pair", ["only", True])
+
+obs_class, nontrivial_key = _nodecommon.with_node(obs_class, nontrivial_key)
